@@ -4,6 +4,7 @@ import (
 	"crypto/sha256"
 	"encoding/json"
 	"fmt"
+	"strings"
 
 	"github.com/lidofinance/dc4bc/fsm/fsm"
 	"github.com/lidofinance/dc4bc/fsm/state_machines/signature_proposal_fsm"
@@ -50,8 +51,15 @@ func (am *Machine) handleReinitDKG(operation *client.Operation) error {
 		if o.DKGIdentifier != operation.DKGIdentifier {
 			continue
 		}
-		if _, err := am.GetOperationResult(o); err != nil {
+		res, err := am.GetOperationResult(o)
+		if err != nil {
 			return fmt.Errorf("failed to process operation: %w", err)
+		}
+		// a handler that fails does not return an error: it answers with an error event for the
+		// board (e.g. a deal that contradicts its dealer's commitments) - the reinitialisation
+		// must not go on to build a key share from what the original machine refused
+		if strings.HasSuffix(string(res.Event), "_error") || strings.HasSuffix(string(res.Event), "_error_received") {
+			return fmt.Errorf("operation %s of the replayed round was refused: %s", o.Type, res.Event)
 		}
 	}
 	blsKeyring, err := am.loadBLSKeyring(operation.DKGIdentifier)
